@@ -546,9 +546,15 @@ pub fn feature_mix_program(rng: &mut Rng) -> Vec<u8> {
     }
     let nblocks = rng.range(2, 7);
     let mut used: Vec<usize> = Vec::new();
+    // half of the programs avoid the blocks and values that are errors by
+    // construction (the success side needs programs that assemble)
+    let clean = rng.chance(1, 2);
     for i in 0..nblocks {
         // (block 16, addresses beyond 16 bits, a little more often)
-        let kind = if rng.chance(1, 12) { 16 } else { rng.below(19) };
+        let mut kind = if rng.chance(1, 12) { 16 } else { rng.below(22) };
+        if clean && banked && kind == 16 {
+            kind = 4;
+        }
         used.push(kind);
         match kind {
             0 => {
@@ -611,8 +617,26 @@ pub fn feature_mix_program(rng: &mut Rng) -> Vec<u8> {
             17 => {
                 // a rule with several parameters whose asm block misspells one
                 // of its {substitutions}
-                let typo = rng.chance(1, 2);
+                let typo = !clean && rng.chance(1, 2);
                 s.push_str(&format!("#ruledef\n{{\n    put3{i} {{v: u8}} => v\n    mv3{i} {{dst: u8}}, {{src: u8}}, {{imm: u8}} => asm\n    {{\n        put3{i} {{dst}}\n        put3{i} {{{}}}\n        put3{i} {{imm}}\n    }}\n}}\nmv3{i} 1, 2, 3\n", if typo { "scr" } else { "src" }, i = i));
+            }
+            19 => {
+                // functions as values: a constant bound to a built-in and
+                // called through it; user functions with everyday names
+                let b = *rng.pick(&["le", "utf8", "sizeof", "ascii"]);
+                s.push_str(&format!("fnval{i} = {}\n#d fnval{i}({})`16\n", b, if b == "utf8" || b == "ascii" { "\"ab\"".to_string() } else { format!("0x{:x}`16", rng.below(0xffff)) }, i = i));
+                if !s.contains("#fn abs(") && rng.chance(1, 2) {
+                    s.push_str(&format!("#fn abs(v) => v < 0 ? -v : v\n#fn sign(v) => v < 0 ? -1 : 1\n#fn min(a, b) => a < b ? a : b\n#fn max(a, b) => a < b ? b : a\n#d8 abs({}), sign({})`8, min({}, 7), max(3, {})\n", rng.below(40) as i64 - 20, rng.below(40) as i64 - 20, rng.below(20), rng.below(20)));
+                }
+            }
+            20 => {
+                // several typed arguments, a subset of them out of range
+                let vals: Vec<String> = (0..3).map(|_| if clean { rng.pick(&["0x1", "0x7", "0xf", "3"]).to_string() } else { rng.pick(&["0x10", "0x100", "0x200", "0x7", "300", "-1"]).to_string() }).collect();
+                s.push_str(&format!("#ruledef\n{{\n    mv4{i} {{a: u8}}, {{b: u8}}, {{c: u4}} => a @ b @ c @ 0x0`4\n}}\nmv4{i} {}\n", vals.join(", "), i = i));
+            }
+            21 => {
+                // every candidate fails, each with its own message
+                s.push_str(&format!("#ruledef\n{{\n    op5{i} {{v}} =>\n    {{\n        assert(v < 10, \"too big for the short form\")\n        0x10 @ v`8\n    }}\n    op5{i} {{v}} =>\n    {{\n        assert(v > 1000, \"too small for the long form\")\n        0x11 @ v`16\n    }}\n    op5{i} {{v: u4}} => 0x12 @ v @ 0x0`4\n    op5{i} {{v}} =>\n    {{\n        assert(v > 1000, \"too small for the long form\")\n        0x13 @ v`16\n    }}\n}}\nop5{i} {}\n", if clean { rng.pick(&["5", "7", "5"]) } else { rng.pick(&["500", "5", "2000", "12", "100"]) }, i = i));
             }
             16 => {
                 // addresses beyond 16 bits (formats with an address field)
@@ -626,7 +650,7 @@ pub fn feature_mix_program(rng: &mut Rng) -> Vec<u8> {
             }
         }
     }
-    if rng.chance(1, 4) {
+    if !clean && rng.chance(1, 3) {
         s.push_str(match rng.below(7) {
             0 => "#d8 undefined_name\n",
             1 => "#d8 300\n",
